@@ -53,9 +53,20 @@ type Contract struct {
 	Line     int
 	Iface    bool // contract of an interface method
 	Ints     []string // uint64 variables / "res" that hold numbers, not bit patterns (mathematical Int in word-mode functions)
+	Hints    []Hint
 	Pure     bool // pure lemma: no Go function; proved by induction on its measure
 	PureParams []SpecParam
 	Pkg      string
+}
+
+// Hint: a ghost lemma application anchored at the first statement whose source text starts with Anchor:
+//   //@ before "x := f(y)" apply lemmaName(arg, ...)
+type Hint struct {
+	Anchor string
+	After  bool
+	Lemma  string
+	Args   []Clause
+	Line   int
 }
 
 type SpecParam struct {
@@ -208,7 +219,7 @@ func loadProgram(repo string) (*Program, error) {
 	return p, nil
 }
 
-var kwRe = regexp.MustCompile(`^(spec|opaque|pred|contract|iface|purelemma|ints|requires|ensures|modifies|loop|mode|trusted|panics|use|decreases|lemma|trigger|end)\b`)
+var kwRe = regexp.MustCompile(`^(spec|opaque|pred|before|after|contract|iface|purelemma|ints|requires|ensures|modifies|loop|mode|trusted|panics|use|decreases|lemma|trigger|end)\b`)
 
 func (p *Program) parseContractFile(path, short string) error {
 	fh, err := os.Open(path)
@@ -332,6 +343,20 @@ func (p *Program) parseContractFile(path, short string) error {
 				return fmt.Errorf("%s:%d: clause %q outside a contract", path, rc.line, kw)
 			}
 			switch kw {
+			case "before", "after":
+				m := regexp.MustCompile(`^"([^"]+)"\s+apply\s+(\w+)\s*\((.*)\)\s*$`).FindStringSubmatch(rest)
+				if m == nil {
+					return fmt.Errorf("%s:%d: malformed hint (want: before \"stmt text\" apply lemma(args))", path, rc.line)
+				}
+				h := Hint{Anchor: strings.Join(strings.Fields(m[1]), " "), After: kw == "after", Lemma: m[2], Line: rc.line}
+				for _, part := range splitTopComma(m[3]) {
+					c, err := mkClause(part, rc.line)
+					if err != nil {
+						return err
+					}
+					h.Args = append(h.Args, c)
+				}
+				cur.Hints = append(cur.Hints, h)
 			case "use":
 				cur.Uses = append(cur.Uses, strings.Fields(rest)...)
 			case "ints":
